@@ -20,6 +20,7 @@ from vf.sym import Gen, Val, same
 COMMON = '''
 from apischema.conversions import Conversion, LazyConversion, catch_value_error
 from apischema import deserializer, serializer
+from collections import deque
 
 
 class Box:
@@ -79,6 +80,21 @@ SCENARIOS = {
         "@serializer\ndef w_to(w: W[T_]) -> List[T_]:\n    return w.items\n",
         T="W[int]", S_spec=lst(INT), S="List[int]", f="w_from", U_spec=lst(INT), U="List[int]", g="w_to",
     ),
+    "inherit_stop": dict(
+        src="class H0(Box): pass\nclass H1(H0): pass\nclass H2(H1): pass\n"
+        "@serializer\ndef h0_to(h: H0) -> int:\n    return h.v\n"
+        "serializer(Conversion(lambda h: str(h.v), source=H1, target=str, inherited=False))\n"
+        "@deserializer\ndef h2_from(i: int) -> H2:\n    return H2(i)\n",
+        T="H2", S_spec=INT, S="int", f="h2_from", U_spec=INT, U="int", g="h0_to",
+    ),
+    "identity_tuple": dict(
+        src="@dataclass\nclass Pt:\n    x: int\n    y: int = 0\n"
+        "def pt_from(i: int) -> Pt:\n    return Pt(i, i)\ndef pt_to(p: Pt) -> int:\n    return p.x\n"
+        "@dataclass\nclass PtPlain:\n    x: int\n    y: int = 0\n",
+        T="Pt", S_spec=union(obj("PtPlain", F("x", INT), F("y", INT, default=("v", "0"))), INT), S="Union[PtPlain, int]",
+        f="(lambda v: Pt(v, v) if isinstance(v, int) else Pt(v.x, v.y))",
+        U_spec=INT, U="int", g="pt_to", dynamic=("(identity, pt_from)", "pt_to"), only=("plain",), deser_only=True,
+    ),
     "builtin": dict(
         src="class Tok(Box):\n    def __str__(self):\n        return self.v\n"
         "deserializer(Conversion(Tok, source=str, target=Tok))\nserializer(Conversion(str, source=Tok, target=str))\n",
@@ -99,16 +115,16 @@ SCENARIOS = {
         U_spec=obj("IdtPlain", F("x", INT)), U="IdtPlain", g="(lambda i: IdtPlain(i.x))", dynamic=("identity", "identity"), named_S=True,
     ),
 }
-WRAPPERS = ["plain", "list", "opt", "dict", "tuple", "union", "field"]
+WRAPPERS = ["plain", "list", "opt", "dict", "tuple", "union", "field", "deque"]
 
 
 def wrap_type(w: str, t: str) -> str:
-    return {"plain": t, "list": f"List[{t}]", "opt": f"Optional[{t}]", "dict": f"Dict[str, {t}]",
+    return {"deque": f"Deque[{t}]", "plain": t, "list": f"List[{t}]", "opt": f"Optional[{t}]", "dict": f"Dict[str, {t}]",
             "tuple": f"Tuple[{t}, str]", "union": f"Union[{t}, None, List[{t}]]"}[w]
 
 
 def wrap_spec(w: str, s: Sp) -> Sp:
-    return {"plain": s, "list": lst(s), "opt": opt(s), "dict": mp(s), "tuple": tup(s, STR),
+    return {"deque": lst(s), "plain": s, "list": lst(s), "opt": opt(s), "dict": mp(s), "tuple": tup(s, STR),
             "union": union(s, Sp("none"), lst(s))}[w]
 
 
@@ -117,6 +133,10 @@ def lift(w: str, f):
         return f
     if w == "list":
         return lambda xs: [f(x) for x in xs]
+    if w == "deque":
+        import collections
+
+        return lambda xs: collections.deque(f(x) for x in xs)
     if w == "opt":
         return lambda x: None if x is None else f(x)
     if w == "dict":
@@ -139,9 +159,11 @@ def jobs(prop, tier, seed):
                 continue
             if sc.get("named_S") and w != "plain":
                 continue  # `identity` matches the outermost type only
+            if sc.get("only") and w not in sc["only"]:
+                continue
             if w == "union" and name in ("multiple", "generic", "generic_inherited", "dynamic"):
                 continue  # the source is itself a list / union (ambiguous wrapper), or a float (by-type dispatch known finding)
-            for direction in ("deser", "ser"):
+            for direction in ("deser",) if sc.get("deser_only") else ("deser", "ser"):
                 b = dict(depth=2, width=2, strlen=2, budget=1 if q else 2)
                 out.append(dict(harness="C12", variant=direction, pid=f"{name}/{w}", scenario=name, wrapper=w, opts={}, bounds=b, budget_s=30 if q else 120))
         out.append(dict(harness="C12", variant="schema", pid=f"{name}/schema", scenario=name, wrapper="plain", opts={}, bounds={}, budget_s=20))
@@ -314,11 +336,11 @@ class Inst:
         from apischema.json_schema import deserialization_schema, serialization_schema
 
         dyn = self.sc.get("dynamic")
-        if self.sc.get("field_conv") or self.job["scenario"] in ("multiple", "identity"):
+        if self.sc.get("field_conv") or self.job["scenario"] in ("multiple", "identity", "identity_tuple"):
             return None  # field conversions have no type-level schema; several sources: anyOf vs type list
         dkw = {"conversion": eval(dyn[0], self.ns)} if dyn else {}
         skw = {"conversion": eval(dyn[1], self.ns)} if dyn else {}
-        for w in ("plain", "list", "opt"):
+        for w in ("plain", "list", "opt", "deque"):
             T, S, U = (eval(wrap_type(w, self.sc[k]), self.ns) for k in ("T", "S", "U"))
             a, b = deserialization_schema(T, **dkw), deserialization_schema(S)
             if a != b:
